@@ -214,3 +214,82 @@ Qed.
    "/./\e" into "/\e" *)
 Theorem location_old_refuted : exists pf s, same_origin (location_old pf s) = false.
 Proof. exists false, [47;46;47;92;101]. vm_compute. reflexivity. Qed.
+
+(* ---- the login prompt, the federated round trip, the logout redirect ---- *)
+Lemma gld_not_nil s : is_nil (get_login_destination s) = false.
+Proof.
+  unfold get_login_destination. destruct (accepted s) eqn:A; [|reflexivity].
+  destruct s; [vm_compute in A; discriminate|reflexivity].
+Qed.
+
+Theorem federated_same_origin : forall pf v, same_origin (federated_location pf v) = true.
+Proof.
+  intros pf v. unfold federated_location, callback_location, callback_target, pending_store.
+  rewrite gld_not_nil. apply location_same_origin.
+Qed.
+
+Theorem prompt_flow_same_origin : forall oa force pf q posted,
+  same_origin (prompt_flow_location oa force pf q posted) = true.
+Proof.
+  intros. unfold prompt_flow_location, prompt_flow_pending. cbn [prompt_starts_federated].
+  apply federated_same_origin.
+Qed.
+
+Theorem prompt_never_starts : forall oa force, prompt_starts_federated oa force = false.
+Proof. reflexivity. Qed.
+
+(* parking the page destination itself would not be safe *)
+Theorem unfiltered_prompt_refuted : exists q,
+  same_origin (hex_escape (redirect_emit false true (callback_target (page_destination q)))) = false.
+Proof.
+  exists {| pr_post := false; pr_comeback := true;
+                   pr_url := [104;116;116;112;115;58;47;47;101;46;120;47;97]; pr_form := [] |}.
+  vm_compute. reflexivity.
+Qed.
+
+(* logout *)
+Lemma strip_keep c r : is_ctl c = false -> strip (c :: r) = c :: strip r.
+Proof.
+  intro H. unfold is_ctl in H. apply orb_false_iff in H. destruct H as [A B]. apply N.ltb_ge in A.
+  unfold strip. cbn [filter].
+  replace (c =? 9) with false by (symmetry; apply N.eqb_neq; lia).
+  replace (c =? 10) with false by (symmetry; apply N.eqb_neq; lia).
+  replace (c =? 13) with false by (symmetry; apply N.eqb_neq; lia). reflexivity.
+Qed.
+
+Lemma hexd_not_ctl n : is_ctl (hexd n) = false.
+Proof. apply good_not_ctl. apply hexd_good. Qed.
+
+Lemma strip_hex_ctl u : has is_ctl (strip (hex_escape u)) = has is_ctl (strip u).
+Proof.
+  induction u as [|c r IH]; [reflexivity|].
+  cbn [hex_escape]. destruct (c <? 128) eqn:L.
+  - unfold strip in *. cbn [filter]. destruct (negb ((c =? 9) || (c =? 10) || (c =? 13))); cbn [has]; rewrite IH; reflexivity.
+  - apply N.ltb_ge in L.
+    assert (C : is_ctl c = false).
+    { unfold is_ctl. apply orb_false_iff. split; [apply N.ltb_ge; lia|apply N.eqb_neq; lia]. }
+    rewrite (strip_keep c r C).
+    rewrite (strip_keep PCT _ eq_refl), (strip_keep _ _ (hexd_not_ctl (c / 16))), (strip_keep _ _ (hexd_not_ctl (c mod 16))).
+    cbn [has]. rewrite C, !hexd_not_ctl. change (is_ctl PCT) with false. cbn [orb]. exact IH.
+Qed.
+
+Lemma logout_redirect pf u : redirect_location pf (logout_target u) = logout_target u.
+Proof.
+  unfold redirect_location. destruct pf; [reflexivity|].
+  unfold logout_target. destruct (is_nil u); reflexivity.
+Qed.
+
+Theorem logout_same_origin : forall pf u,
+  has is_ctl (strip u) = false -> same_origin (logout_location pf u) = true.
+Proof.
+  intros pf u H. unfold logout_location. rewrite logout_redirect.
+  unfold logout_target. destruct (is_nil u); [reflexivity|].
+  unfold same_origin.
+  change (hex_escape (logout_prefix ++ u)) with (logout_prefix ++ hex_escape u).
+  change (strip (logout_prefix ++ hex_escape u)) with (logout_prefix ++ strip (hex_escape u)).
+  cbn [logout_prefix app starts_slash second_is has].
+  rewrite strip_hex_ctl, H. reflexivity.
+Qed.
+
+Theorem logout_ctl_refuted : exists pf u, same_origin (logout_location pf u) = false.
+Proof. exists true, [1]. vm_compute. reflexivity. Qed.
